@@ -50,6 +50,26 @@ def _name_counts(fn):
             for a in n.names:
                 nm = (a.asname or a.name).split(".")[0]
                 st[nm] = st.get(nm, 0) + 1
+    # N1f: a temporary that is bound several times (the same helper inlined in several branches) but each time used exactly once,
+    # in the statement that follows its binding: every binding / use pair stands alone, as if the names were different
+    if "N1f" not in _SKIP:
+        multi = {t for t in st if st[t] > 1 and ld.get(t, 0) == st[t]}
+        if multi:
+            pairs = {t: 0 for t in multi}
+            for n in ast.walk(fn):
+                for b in _blocks(n):
+                    for i, s_ in enumerate(b):
+                        if isinstance(s_, ast.Assign) and len(s_.targets) == 1 and isinstance(s_.targets[0], ast.Name) and s_.targets[0].id in multi:
+                            t = s_.targets[0].id
+                            nxt = b[i + 1] if i + 1 < len(b) else None
+                            if nxt is None or any(isinstance(x, ast.Name) and x.id == t for x in ast.walk(s_.value)):
+                                continue
+                            inside = [x for x in ast.walk(nxt) if isinstance(x, ast.Name) and x.id == t]
+                            if len(inside) == 1 and isinstance(inside[0].ctx, ast.Load) and not isinstance(nxt, (ast.While, ast.For, ast.AsyncFor, ast.With, ast.Try) + FUNC):
+                                pairs[t] += 1
+            for t in multi:
+                if pairs[t] == st[t]:
+                    st[t] = ld[t] = 1
     return st, ld
 
 
@@ -82,7 +102,19 @@ def _inline_block(body, st, ld):
                     continue
                 # N1b: a PURE temporary (names, attribute chains, constant subscripts: nothing that can
                 # have an effect, so evaluation order does not matter) used once in the next simple statement
-                if _pure(s.value) and isinstance(nxt, (ast.Return, ast.Assign, ast.AugAssign, ast.Expr, ast.Raise, ast.Assert, ast.If)) \
+                # N1e: any value, when nothing but constants / plain names is evaluated before the place it is used at in the next
+                # statement: the value is then computed at the very same point of the execution
+                if "N1e" not in _SKIP and isinstance(nxt, (ast.Return, ast.Expr)) or (isinstance(nxt, ast.Assign) and len(nxt.targets) == 1):
+                    top = nxt.value
+                    uses = [n for n in ast.walk(top) if isinstance(n, ast.Name) and n.id == t and isinstance(n.ctx, ast.Load)] if top is not None else []
+                    in_target = isinstance(nxt, ast.Assign) and any(isinstance(n, ast.Name) and n.id == t for n in ast.walk(nxt.targets[0]))
+                    if "N1e" not in _SKIP and len(uses) == 1 and not in_target and not _pure(s.value) and _first_evaluated(top, uses[0]):
+                        _replace([nxt], uses[0], s.value)
+                        changed = True
+                        i += 1
+                        continue
+                if (_pure(s.value) or ("N1d" not in _SKIP and _fresh_display(s.value))) \
+                        and isinstance(nxt, (ast.Return, ast.Assign, ast.AugAssign, ast.Expr, ast.Raise, ast.Assert, ast.If)) \
                         and not _reads_written(s.value, nxt):
                     scope = [nxt.test] if isinstance(nxt, ast.If) else [nxt]
                     uses = [n for sc in scope for n in ast.walk(sc) if isinstance(n, ast.Name) and n.id == t and isinstance(n.ctx, ast.Load)]
@@ -97,6 +129,46 @@ def _inline_block(body, st, ld):
         i += 1
     body[:] = out
     return changed
+
+
+class _NoOrder(Exception):
+    pass
+
+
+def _eval_order(e):
+    """The nodes of an expression in the order their evaluation completes (operands before the node), for the plain node kinds
+    whose operands are all evaluated, left to right; _NoOrder for anything evaluated conditionally or later (and / or, a
+    conditional expression, a lambda, a comprehension)."""
+    if isinstance(e, (ast.BoolOp, ast.IfExp, ast.Lambda, ast.ListComp, ast.SetComp, ast.DictComp, ast.GeneratorExp, ast.NamedExpr, ast.Await, ast.Yield,
+                      ast.YieldFrom, ast.JoinedStr)):
+        raise _NoOrder()
+    if isinstance(e, ast.Dict):
+        for k, v in zip(e.keys, e.values):
+            if k is not None:
+                yield from _eval_order(k)
+            yield from _eval_order(v)
+    elif isinstance(e, ast.Compare) and len(e.ops) > 1:
+        raise _NoOrder()
+    else:
+        for ch in ast.iter_child_nodes(e):
+            if isinstance(ch, ast.expr):
+                yield from _eval_order(ch)
+            elif isinstance(ch, ast.keyword):
+                yield from _eval_order(ch.value)
+    yield e
+
+
+def _first_evaluated(expr, use) -> bool:
+    """N1e: is `use` reached before anything but constants and plain names (and displays of those) has been evaluated?"""
+    try:
+        for n in _eval_order(expr):
+            if n is use:
+                return True
+            if not isinstance(n, (ast.Constant, ast.Name, ast.Tuple, ast.List, ast.Set, ast.Dict, ast.Starred)):
+                return False
+    except _NoOrder:
+        return False
+    return False
 
 
 def _call_before(scope, use):
@@ -118,6 +190,16 @@ def _pure(e):
         return _pure(e.value)
     if isinstance(e, ast.Subscript):
         return _pure(e.value) and isinstance(e.slice, (ast.Constant, ast.Name))
+    return False
+
+
+def _fresh_display(e):
+    """N1d: a dict / list / tuple / set display of pure elements: a new object that, used once in the next statement, is that
+    display written in place"""
+    if isinstance(e, ast.Dict):
+        return all((k is None or _pure(k)) and (_pure(v) or _fresh_display(v)) for k, v in zip(e.keys, e.values))
+    if isinstance(e, (ast.List, ast.Tuple, ast.Set)):
+        return all(_pure(x.value if isinstance(x, ast.Starred) else x) for x in e.elts)
     return False
 
 
@@ -269,6 +351,21 @@ class _ExprNF(ast.NodeTransformer):
                 return ast.copy_location(new, n)
         return n
 
+    def visit_Dict(self, n):
+        self.generic_visit(n)
+        # E28: {**a, **{k: v}} is {**a, k: v}; {**a, **{}} is {**a}
+        if "E28" not in _SKIP and any(k is None and isinstance(v, ast.Dict) for k, v in zip(n.keys, n.values)):
+            keys, vals = [], []
+            for k, v in zip(n.keys, n.values):
+                if k is None and isinstance(v, ast.Dict):
+                    keys += v.keys
+                    vals += v.values
+                else:
+                    keys.append(k)
+                    vals.append(v)
+            n.keys, n.values = keys, vals
+        return n
+
     def visit_Subscript(self, n):
         self.generic_visit(n)
         if isinstance(n.slice, ast.Slice) and isinstance(n.slice.lower, ast.Constant) and n.slice.lower.value == 0 and n.slice.step is None:
@@ -277,6 +374,13 @@ class _ExprNF(ast.NodeTransformer):
 
     def visit_Call(self, n):
         self.generic_visit(n)
+        # E25: isinstance(None, X) is False for every class but object / NoneType
+        if isinstance(n.func, ast.Name) and n.func.id == "isinstance" and len(n.args) == 2 and not n.keywords and "E25" not in _SKIP \
+                and isinstance(n.args[0], ast.Constant) and n.args[0].value is None:
+            classes = n.args[1].elts if isinstance(n.args[1], ast.Tuple) else [n.args[1]]
+            if classes and all((isinstance(c, ast.Name) and c.id not in ("object", "NoneType")) or
+                               (isinstance(c, ast.Attribute) and c.attr not in ("NoneType",)) for c in classes):
+                return ast.copy_location(ast.Constant(value=False), n)
         if isinstance(n.func, ast.Name) and not n.args and not n.keywords:
             if n.func.id == "dict":
                 return ast.copy_location(ast.Dict(keys=[], values=[]), n)
@@ -444,6 +548,57 @@ def _thread_flag_ifs(fn):
                     break
             if changed:
                 break
+
+
+def _thread_preset_flag(fn):
+    """E27: a boolean preset to a constant at the top of the function, set to another constant in one branch and tested right
+    after that branch by an `if` whose body is a single jump:
+
+        f = K0                     f = K0
+        ...                        ...
+        if C: S; f = K1     ==>    if C: S; f = K1; [J if K1]
+        if f: J                    else: [J if K0]
+    (the flag itself stays: it may be read again later).  Not inside a loop, where the flag could carry over."""
+    if "E27" in _SKIP:
+        return
+    st, _ld = _name_counts(fn)
+    import copy as _copy
+
+    def visit(block, in_loop, top_index):
+        i = 0
+        while i < len(block):
+            a = block[i]
+            ti = top_index if top_index is not None else i
+            if isinstance(a, ast.If) and not a.orelse and not in_loop and i + 1 < len(block):
+                t = block[i + 1]
+                if isinstance(t, ast.If) and not t.orelse and len(t.body) == 1 and isinstance(t.body[0], (ast.Return, ast.Raise, ast.Continue, ast.Break)):
+                    tt, neg = t.test, False
+                    if isinstance(tt, ast.UnaryOp) and isinstance(tt.op, ast.Not):
+                        tt, neg = tt.operand, True
+                    last = a.body[-1] if a.body else None
+                    if isinstance(tt, ast.Name) and st.get(tt.id, 0) == 2 and isinstance(last, ast.Assign) and len(last.targets) == 1 \
+                            and isinstance(last.targets[0], ast.Name) and last.targets[0].id == tt.id and isinstance(last.value, ast.Constant) \
+                            and isinstance(last.value.value, bool):
+                        inits = [x for x in fn.body[:ti] if isinstance(x, ast.Assign) and len(x.targets) == 1 and isinstance(x.targets[0], ast.Name)
+                                 and x.targets[0].id == tt.id and isinstance(x.value, ast.Constant) and isinstance(x.value.value, bool)]
+                        if len(inits) == 1:
+                            k1 = bool(last.value.value) != neg
+                            k0 = bool(inits[0].value.value) != neg
+                            if k1:
+                                a.body.append(_copy.deepcopy(t.body[0]))
+                            if k0:
+                                a.orelse = [_copy.deepcopy(t.body[0])]
+                            del block[i + 1]
+                            continue
+            for fld in ("body", "orelse", "finalbody"):
+                sub = getattr(a, fld, None)
+                if isinstance(sub, list) and sub and isinstance(sub[0], ast.stmt) and not isinstance(a, FUNC + (ast.ClassDef,)):
+                    visit(sub, in_loop or isinstance(a, (ast.For, ast.While, ast.AsyncFor)), ti)
+            for h in getattr(a, "handlers", []) or []:
+                visit(h.body, in_loop, ti)
+            i += 1
+    visit(fn.body, False, None)
+    ast.fix_missing_locations(fn)
 
 
 import os as _os
@@ -780,9 +935,137 @@ def _suppress_blocks(fn):
     ast.fix_missing_locations(fn)
 
 
+_NOT_EXCEPTIONS = ("BaseException", "KeyboardInterrupt", "SystemExit", "GeneratorExit")
+
+
+def _dispatch_of(h):
+    """The typed handlers that `except BaseException/Exception as e: if isinstance(e, A): ... elif isinstance(e, B): ... else: ...`
+    stands for, or None.  A leading `if not isinstance(e, Exception): raise` narrows what the remaining branches see."""
+    if h.name is None or not (isinstance(h.type, ast.Name) and h.type.id in ("BaseException", "Exception")) or not h.body:
+        return None
+    e = h.name
+    prefix, last = h.body[:-1], h.body[-1]
+    if not isinstance(last, ast.If):
+        return None
+    for st in prefix:
+        # a temporary nobody reads (`exc_type = type(e)`)
+        v = getattr(st, "value", None)
+        typeof = isinstance(v, ast.Call) and isinstance(v.func, ast.Name) and v.func.id == "type" and len(v.args) == 1 and not v.keywords and _pure(v.args[0])
+        if not (isinstance(st, ast.Assign) and len(st.targets) == 1 and isinstance(st.targets[0], ast.Name) and (_pure(v) or typeof)):
+            return None
+        if any(isinstance(x, ast.Name) and x.id == st.targets[0].id and isinstance(x.ctx, ast.Load) for x in ast.walk(last)):
+            return None
+    rest = h.type.id
+    out = []
+    cur = last
+    while True:
+        t = cur.test
+        neg = isinstance(t, ast.UnaryOp) and isinstance(t.op, ast.Not)
+        c = t.operand if neg else t
+        if not (isinstance(c, ast.Call) and isinstance(c.func, ast.Name) and c.func.id == "isinstance" and len(c.args) == 2 and not c.keywords
+                and isinstance(c.args[0], ast.Name) and c.args[0].id == e):
+            return None
+        typ = c.args[1]
+        if neg:
+            if not (isinstance(typ, ast.Name) and typ.id == "Exception" and rest == "BaseException" and not out
+                    and len(cur.body) == 1 and isinstance(cur.body[0], ast.Raise) and cur.body[0].exc is None):
+                return None
+            rest = "Exception"
+        else:
+            names = typ.elts if isinstance(typ, ast.Tuple) else [typ]
+            if not all(isinstance(x, (ast.Name, ast.Attribute)) for x in names) or any(isinstance(x, ast.Name) and x.id in _NOT_EXCEPTIONS for x in names):
+                return None
+            out.append(ast.copy_location(ast.ExceptHandler(type=typ, name=e, body=cur.body), cur))
+        if len(cur.orelse) == 1 and isinstance(cur.orelse[0], ast.If):
+            cur = cur.orelse[0]
+            continue
+        tail = cur.orelse or [ast.copy_location(ast.Pass(), cur)]
+        if len(tail) == 1 and isinstance(tail[0], ast.Raise) and tail[0].exc is None and tail[0].cause is None and out:
+            return out   # what is left is caught only to be raised again
+        out.append(ast.copy_location(ast.ExceptHandler(type=ast.copy_location(ast.Name(id=rest, ctx=ast.Load()), h), name=e, body=tail), h))
+        return out
+
+
+def _split_update_displays(fn):
+    """E29: `X.update({**A, k: v})` (X, A, k, v pure) is `X.update(A)` followed by `X[k] = v`: entries land in that order"""
+    if "E29" in _SKIP:
+        return
+    for n in ast.walk(fn):
+        for b in _blocks(n):
+            out = []
+            for s_ in b:
+                c = s_.value if isinstance(s_, ast.Expr) else None
+                if isinstance(c, ast.Call) and isinstance(c.func, ast.Attribute) and c.func.attr == "update" and len(c.args) == 1 and not c.keywords \
+                        and isinstance(c.args[0], ast.Dict) and _pure(c.func.value) and len(c.args[0].keys) >= 2 \
+                        and all((k is None or _pure(k)) and _pure(v) for k, v in zip(c.args[0].keys, c.args[0].values)) \
+                        and sum(1 for k in c.args[0].keys if k is None) >= 1:
+                    for k, v in zip(c.args[0].keys, c.args[0].values):
+                        if k is None:
+                            call = ast.Call(func=ast.Attribute(value=c.func.value, attr="update", ctx=ast.Load()), args=[v], keywords=[])
+                            out.append(ast.copy_location(ast.Expr(value=call), s_))
+                        else:
+                            tgt = ast.Subscript(value=c.func.value, slice=k, ctx=ast.Store())
+                            out.append(ast.copy_location(ast.Assign(targets=[tgt], value=v), s_))
+                    continue
+                out.append(s_)
+            b[:] = out
+    ast.fix_missing_locations(fn)
+
+
+def _display_then_update(fn):
+    """E30: `t = {...}` directly followed by `t.update(X)` / `t.update(k=v)` / `t[k] = v` (X a pure name or a display, k, v pure) is the
+    one display `t = {..., **X}` / `{..., 'k': v}`: later entries win in a display as they do in an update"""
+    if "E30" in _SKIP:
+        return
+    for n in ast.walk(fn):
+        for b in _blocks(n):
+            i = 0
+            while i + 1 < len(b):
+                s1, s2 = b[i], b[i + 1]
+                if isinstance(s1, ast.Assign) and len(s1.targets) == 1 and isinstance(s1.targets[0], ast.Name) and isinstance(s1.value, ast.Dict):
+                    t = s1.targets[0].id
+                    c = s2.value if isinstance(s2, ast.Expr) else None
+                    mentions_t = lambda e: any(isinstance(x, ast.Name) and x.id == t for x in ast.walk(e))
+                    if isinstance(c, ast.Call) and isinstance(c.func, ast.Attribute) and c.func.attr == "update" and isinstance(c.func.value, ast.Name) \
+                            and c.func.value.id == t and len(c.args) <= 1 and all(k.arg is not None and _pure(k.value) for k in c.keywords) \
+                            and all((_pure(a) or _fresh_display(a)) and not mentions_t(a) for a in c.args) and not any(mentions_t(k.value) for k in c.keywords):
+                        for a in c.args:
+                            s1.value.keys.append(None)
+                            s1.value.values.append(a)
+                        for k in c.keywords:
+                            s1.value.keys.append(ast.copy_location(ast.Constant(value=k.arg), k.value))
+                            s1.value.values.append(k.value)
+                        del b[i + 1]
+                        continue
+                    if isinstance(s2, ast.Assign) and len(s2.targets) == 1 and isinstance(s2.targets[0], ast.Subscript) and isinstance(s2.targets[0].value, ast.Name) \
+                            and s2.targets[0].value.id == t and _pure(s2.targets[0].slice) and _pure(s2.value) and not mentions_t(s2.value) and not mentions_t(s2.targets[0].slice):
+                        s1.value.keys.append(s2.targets[0].slice)
+                        s1.value.values.append(s2.value)
+                        del b[i + 1]
+                        continue
+                i += 1
+    ast.fix_missing_locations(fn)
+
+
+def _handler_dispatch(fn):
+    """E26: a catch-all handler that dispatches on the class of what it caught is the list of typed handlers"""
+    if "E26" in _SKIP:
+        return
+    for n in ast.walk(fn):
+        if isinstance(n, ast.Try) and n.handlers:
+            new = []
+            for i, h in enumerate(n.handlers):
+                rep = _dispatch_of(h) if i == len(n.handlers) - 1 else None
+                new += rep if rep else [h]
+            n.handlers = new
+    ast.fix_missing_locations(fn)
+
+
 def _canon_function(fn):
+    _display_then_update(fn)
     _match_statements(fn)
     _suppress_blocks(fn)
+    _handler_dispatch(fn)
     _plain_assigns(fn)
     for _round in range(4):   # an arm may itself be a conditional expression with a call
         before_ = sum(1 for x in ast.walk(fn) if isinstance(x, ast.IfExp))
@@ -791,6 +1074,7 @@ def _canon_function(fn):
             break
     _split_withs(fn)
     _thread_flag_ifs(fn)
+    _thread_preset_flag(fn)
     if "E18" not in _SKIP:
         _thread_result_returns(fn)
     if "E10" not in _SKIP:
@@ -825,6 +1109,10 @@ def _canon_function(fn):
                 and isinstance(n.test, ast.UnaryOp) and isinstance(n.test.op, ast.Not):
             n.test = n.test.operand
             n.body, n.orelse = n.orelse, n.body
+    _ExprNF().visit(fn)
+    _split_update_displays(fn)
+    _thread_preset_flag(fn)
+    _handler_dispatch(fn)
 
 
 def canonicalise(tree):
